@@ -35,8 +35,8 @@ ASSUMPTIONS = ["OS-level I/O errors are not injected (the statement is silent ab
                "record alphabet: printable Latin-1 without control characters"]
 
 TEXTS = ["hello", "µL of Müller's buffer", "ÿ±½ end", "  padded  ", "a\nb\n\nc", "x" * 60, "tab\there", "semi-colon free", "€ not latin-1"]
-GOOD_NAMES = ["out.gwl", "OUT.GWL", "my worklist.gwl", "a.b.gwl", "second.Gwl", "µ.gwl"]
-BAD_NAMES = ["out.txt", "worklist", "gwl", "out.gw", "out.csv"]
+GOOD_NAMES = ["out.gwl", "OUT.GWL", "my worklist.gwl", "a.b.gwl", "second.Gwl", "µ.gwl", "sub dir/in dir.gwl"]
+BAD_NAMES = ["out.txt", "worklist", "gwl", "out.gw", "out.csv", "plate7.gwl.d/notes.txt", "run.GWL/out"]
 
 
 def expected_bytes(records):
@@ -56,10 +56,13 @@ class Exec(ExecBase):
 
 def dir_state(scratch):
     out = []
-    for n in sorted(os.listdir(scratch)):
-        with open(os.path.join(scratch, n), "rb") as f:
-            out.append((n, short_hash(f.read())))
-    return tuple(out)
+    for root, dirs, files in os.walk(scratch):
+        dirs.sort()
+        for n in sorted(files):
+            p = os.path.join(root, n)
+            with open(p, "rb") as f:
+                out.append((os.path.relpath(p, scratch), short_hash(f.read())))
+    return tuple(sorted(out))
 
 
 def execute(spec, count_lines=False):
@@ -71,6 +74,8 @@ def execute(spec, count_lines=False):
         res.add(Violation(PROP, clause, spec, idx, op["op"] if op else None, outcome, detail, facts=facts or {}))
 
     with Scratch() as scratch:
+        for sub in ("plate7.gwl.d", "run.GWL", "sub dir"):
+            os.makedirs(os.path.join(scratch, sub), exist_ok=True)
         sess = Session(world, scratch=scratch)
         rt = sess.rt
         wl = sess.wl
